@@ -61,3 +61,9 @@ func VerifH_aesgcmsiv_prefix() {
 	}
 	verifrt.Reach("end")
 }
+
+func VerifH_c19_aesgcmsiv() {
+	internalaead.VerifDotSummary()
+	a, _, _ := build()
+	verifh.CheckAEADNoWrite(a)
+}
